@@ -11,7 +11,11 @@ Tie (every run):
      over all child members and adversarial type-name spellings, (3) an exhaustive small scope of
      type-name strings;
   B. generated generic programs against their mechanically monomorphised twins, both run on `main`
-     (functions, structs, enums, impl blocks; all type tuples; all call orders; repeated uses).
+     (functions, structs, enums, impl blocks; all type tuples; all call orders; repeated uses);
+  C. the run-time type context of generic impl blocks (coq/C11/Context.v: TypeContext, the stack, find_impl_for_struct,
+     the method-call path): call skeletons in which methods of one instantiation call methods on receivers of other
+     instantiations of the same block / other blocks / through generic functions, nested, with early returns -
+     extracted model trace vs generic program vs twin; TypeContext::resolve_complex_type (ast.h) vs the model.
 """
 import itertools
 import json
@@ -40,17 +44,27 @@ META = {
             "(any size/depth/type arguments); substitute_generic_type_name on the spelling of any well-formed type expression is structural "
             "substitution and leaves no bound parameter; generate_cache_key is injective (names without '<', arguments without ',') hence "
             "after any call history a cache hit returns only the instance of the same function and tuple; n-th use equals first use on the "
-            "live (cache-off) path. clone_complete, clone_id, instantiate_is_monomorphise, subst_total and the cached n-th-use law are "
-            "refuted on the pinned tree with witnesses that are real parser ASTs (known findings). The model is tied to the code on every run "
+            "live (cache-off) path. Generic impl blocks (one shared method AST, type parameters resolved at run time): a model of TypeContext, the "
+            "type-context stack, find_impl_for_struct and the method-call path of call_impl.cpp, with the theorems: stack discipline (for every "
+            "program of impl blocks, any nesting depth and history, every method body observes its type names under the context of the instance of "
+            "its RECEIVER - a callee of another instantiation of the same block included - and the caller's context is restored after every "
+            "non-failing callee), the pushed context is the instance of the receiver's struct type name, the instance registry is transparent after "
+            "any call history (instances independent, n-th use like the first), the type arguments of Base<a1, .., ak> bind parameter i to ai, "
+            "resolve_complex_type on flat type expressions is structural substitution; refuted with witnesses (known findings): nested arguments, "
+            "tuple-typed arguments, a run-time error passing the pops, a local declared Box<T>. "
+            "The model is tied to the code on every run "
             "by running the extracted model and the repository's own clone/substitute/instantiate/cache-key code on the parser's ASTs of all "
             "generated generic functions, on random trees and on an exhaustive small scope of type-name strings, and the property itself is "
-            "checked end to end: every generated generic program must print exactly what its mechanically monomorphised twin prints.",
+            "checked end to end: every generated generic program must print exactly what its mechanically monomorphised twin prints; for impl "
+            "blocks additionally the extracted model's trace of resolved type names (through a size table measured from main) must equal both.",
     "note": "Trusted: Coq kernel incl. vm_compute (table checks, witnesses), no axioms (Print Assumptions: closed); the regex translator "
             "translators/clone_fields.py (prints what it recognised into the evidence; unrecognised shape -> stale tables, correspondence only); "
             "extraction ExtrOcamlBasic+ExtrOcamlString; hand-written model; the Python monomorphiser that writes the twin (the property's own "
             "oracle). Partial: the interpreter's reading of the instantiated AST is not modelled - that the uncopied scalar members "
-            "(original_type_name, literal_text, ...) are irrelevant to execution, and the run-time type context used for generic impl blocks, "
-            "are tied by the twin runs only. parse_type_from_string is modelled with an empty typedef registry (generated programs have no typedef).",
+            "(original_type_name, literal_text, ...) are irrelevant to execution is tied by the twin runs only. The type-context model abstracts a "
+            "method body to the statements that read or change the context (observation of a type name, struct local, method call, function call, "
+            "early return, error); constructors/destructors of generic structs and the builtins sizeof_type/array_get/array_set are not modelled "
+            "(twin runs of corpus programs only). parse_type_from_string is modelled with an empty typedef registry (generated programs have no typedef).",
 }
 
 # ====================================================================================== tree codec
@@ -1528,7 +1542,7 @@ def gen_ctx_program(seed, k, shape=None):
     def type_forms(params):
         out = []
         for p in params:
-            out += [p, p, p, "Box<%s>" % p, "%s*" % p, "Duo<%s, long>" % p, "Cell<%s>" % p]
+            out += [p, p, p, "Box<%s>" % p, "%s*" % p, "Duo<%s, long>" % p, "Cell<%s>" % p, "Duo<%s, %s>" % (rng.choice(flat), p)]
         if len(params) == 2:
             out += ["Duo<%s, %s>" % (params[1], params[0]), "Duo<%s, %s>" % (params[0], params[1])]
         out += [rng.choice(flat), ctx_inst_name("Cell", [rng.choice(flat)])]
@@ -2064,8 +2078,12 @@ def _run_body(rep, seed, tier, quick, lap, cq, proof_broken, new_missing, pinned
         "samples": tree_samples + [{"generic": demanded[0].generic_text()[-600:], "twin_stdout": results[0][1][1][-200:]}],
     })
     rep.assumptions += [
-        "the interpreter's execution of the instantiated AST is not modelled: that the uncopied scalar members %s do not matter, and the "
-        "run-time type context of generic impl blocks, are tied by the twin runs only" % sorted(HARMLESS_SCALARS),
+        "the interpreter's execution of the instantiated AST is not modelled: that the uncopied scalar members %s do not matter is tied by the "
+        "twin runs only" % sorted(HARMLESS_SCALARS),
+        "generic impl blocks: the model of the type-context stack sees a method body as its context-relevant statements; what an observation prints is "
+        "the size of the resolved name, measured from main on the same binary; constructors/destructors and sizeof_type/array_get/array_set are outside the model",
+        "generated impl-block programs avoid the recorded findings: parameters spelled over T (Cell<T> o), locals over T other than the block's own "
+        "spelling, tuple-typed type arguments, default constructors, constructor/destructor impls with parameters not called T, failing calls under try",
         "parse_type_from_string is modelled with an empty typedef registry (generated programs contain no typedef)",
         "the monomorphiser that writes the twin (textual substitution of the type parameters, name mangling) is the property's oracle and is trusted",
         "generated programs avoid `ident <` comparisons and `(type)(ident)` casts (parser findings #36/#37 of C02/C10), string payloads in generic enums (C13)",
